@@ -1,6 +1,7 @@
 """C02 - serial queues: one item at a time, in submission order (async, sync, barrier, async_and_wait)."""
 from vlib import *
 from props.lane_common import *
+import os, re
 PROP = "C02"
 
 def run(tier, seed):
@@ -17,7 +18,25 @@ def run(tier, seed):
         runs += [dict(W=1, pp=1, execs=10, ops=40, perturb=2 + k % 2, nt=3 + k % 2), dict(W=1, pp=1, susp=1, execs=6, ops=30, perturb=3)]
     drive(v, PROP, seed, runs, tier)
     steer_f1(v, PROP)
+    main_queue(v, PROP, seed, 2 if tier == "quick" else 10)
     return v.finish()
+
+def main_queue(v, prop, seed, n):
+    """The main queue, thread-bound then converted by dispatch_main() (harness/drv_mainq.c): API oracles only."""
+    drv = build_driver("drv_mainq")
+    for i in range(n):
+        tr = os.path.join(rundir(prop), "mainq_%d.ndjson" % i)
+        rc, out, err = sh([drv, tr, str(seed * 50 + i), str(1 + i % 3), "60"], timeout=300)
+        fails = re.findall(r"ORACLE-FAIL (C\d+) (.*)", err)
+        if rc in (70, 71):
+            v.violation("main queue: %s: %s" % ("crash" if rc == 70 else "hang (an item or a synchronous caller was stranded)", err.strip()[-300:]),
+                        save_replay(prop, "mainq_fail_%d.ndjson" % i, src=tr) if os.path.exists(tr) else tr)
+        elif rc == 2 and any(f[0] in (prop, "C01", "C05") for f in fails):
+            v.violation("main queue API oracle: %s" % "; ".join("%s %s" % f for f in fails[:3]), save_replay(prop, "mainq_oracle_%d.ndjson" % i, src=tr))
+        elif rc not in (0, 2):
+            raise Broken("drv_mainq failed rc=%d: %s" % (rc, err[-500:]))
+        else:
+            v.traces += 1
 
 def steer_f1(v, prop):
     """Steered schedule of finding F1 on the real library (harness/drv_f1.c)."""
